@@ -71,6 +71,18 @@ fn key_of(ctx: &Context, r: ExprRef) -> Key {
     }
 }
 
+/// the call through `Context`, or (one time in three) the same call through the `Builder` wrapper
+macro_rules! via {
+    ($ctx:ident, $rng:ident, $sh:ident, $m:ident ( $($a:expr),* )) => {
+        if $rng.chance(1, 3) {
+            $sh.count("calls_through_the_builder_wrapper", 1);
+            $ctx.build(|b| b.$m($($a),*))
+        } else {
+            $ctx.$m($($a),*)
+        }
+    };
+}
+
 struct Shadow {
     by_key: FxHashMap<Key, ExprRef>,
     by_ref: FxHashMap<ExprRef, (Key, Type)>,
@@ -300,7 +312,7 @@ impl C12 {
                     let w = *rng.pick(&widths);
                     let name = format!("s{}", rng.below(40));
                     let r = if rng.flip() {
-                        ctx.bv_symbol(&name, w)
+                        via!(ctx, rng, sh, bv_symbol(&name, w))
                     } else {
                         let sr = ctx.string(name.clone().into());
                         ctx.symbol(sr, Type::BV(w))
@@ -323,13 +335,13 @@ impl C12 {
                     let (route, disc, val, want) = self.lit_route(rng, w);
                     sh.hist("literal_routes", route);
                     let r = match rng.below(6) {
-                        0 if want.is_zero() => ctx.zero(w),
-                        1 if want.v == BigUint::from(1u32) => ctx.one(w),
-                        2 if want.v == mask(w) => ctx.ones(w),
+                        0 if want.is_zero() => via!(ctx, rng, sh, zero(w)),
+                        1 if want.v == BigUint::from(1u32) => via!(ctx, rng, sh, one(w)),
+                        2 if want.v == mask(w) => via!(ctx, rng, sh, ones(w)),
                         3 if want.v.bits() <= 128 => {
                             let mut bytes = want.v.to_bytes_le();
                             bytes.resize(16, 0);
-                            ctx.bit_vec_val(u128::from_le_bytes(bytes.try_into().unwrap()), w)
+                            via!(ctx, rng, sh, bit_vec_val(u128::from_le_bytes(bytes.try_into().unwrap()), w))
                         }
                         _ => ctx.bv_lit(&val),
                     };
@@ -375,19 +387,19 @@ impl C12 {
                 8 | 9 => {
                     let Some((x, w)) = pick_bv(rng, &sd, None) else { continue };
                     let (name, r, params, ty): (&'static str, ExprRef, Vec<u32>, Type) = match rng.below(6) {
-                        0 => ("not", ctx.not(x), vec![w], Type::BV(w)),
-                        1 => ("neg", ctx.negate(x), vec![w], Type::BV(w)),
+                        0 => ("not", via!(ctx, rng, sh, not(x)), vec![w], Type::BV(w)),
+                        1 => ("neg", via!(ctx, rng, sh, negate(x)), vec![w], Type::BV(w)),
                         2 => {
                             let by = rng.below(4) as u32 * rng.range(1, 40) as u32;
-                            ("zext", ctx.zero_extend(x, by), vec![by, w + by], Type::BV(w + by))
+                            ("zext", via!(ctx, rng, sh, zero_extend(x, by)), vec![by, w + by], Type::BV(w + by))
                         }
                         3 => {
                             let by = rng.below(4) as u32 * rng.range(1, 40) as u32;
-                            ("sext", ctx.sign_extend(x, by), vec![by, w + by], Type::BV(w + by))
+                            ("sext", via!(ctx, rng, sh, sign_extend(x, by)), vec![by, w + by], Type::BV(w + by))
                         }
                         4 => {
                             let iw = rng.range(1, 6) as u32;
-                            ("arrconst", ctx.array_const(x, iw), vec![iw, w], Type::Array(ArrayType { index_width: iw, data_width: w }))
+                            ("arrconst", via!(ctx, rng, sh, array_const(x, iw)), vec![iw, w], Type::Array(ArrayType { index_width: iw, data_width: w }))
                         }
                         _ => {
                             let (hi, lo) = if rng.chance(1, 4) {
@@ -396,7 +408,7 @@ impl C12 {
                                 let lo = rng.below(w as u64) as u32;
                                 (rng.range(lo as u64, w as u64 - 1) as u32, lo)
                             };
-                            ("slice", ctx.slice(x, hi, lo), vec![hi, lo], Type::BV(hi - lo + 1))
+                            ("slice", via!(ctx, rng, sh, slice(x, hi, lo)), vec![hi, lo], Type::BV(hi - lo + 1))
                         }
                     };
                     sh.hist("calls", name);
@@ -421,29 +433,29 @@ impl C12 {
                     let y = if rng.chance(1, 10) { x } else { y };
                     let k = rng.below(21);
                     let (name, r, params, ty): (&'static str, ExprRef, Vec<u32>, Type) = match k {
-                        0 => ("eq", ctx.equal(x, y), vec![], Type::BV(1)),
-                        1 => ("ugt", ctx.greater(x, y), vec![], Type::BV(1)),
-                        2 => ("sgt", ctx.greater_signed(x, y), vec![w], Type::BV(1)),
-                        3 => ("ugte", ctx.greater_or_equal(x, y), vec![], Type::BV(1)),
-                        4 => ("sgte", ctx.greater_or_equal_signed(x, y), vec![w], Type::BV(1)),
-                        5 => ("and", ctx.and(x, y), vec![w], Type::BV(w)),
-                        6 => ("or", ctx.or(x, y), vec![w], Type::BV(w)),
-                        7 => ("xor", ctx.xor(x, y), vec![w], Type::BV(w)),
-                        8 => ("shl", ctx.shift_left(x, y), vec![w], Type::BV(w)),
-                        9 => ("ashr", ctx.arithmetic_shift_right(x, y), vec![w], Type::BV(w)),
-                        10 => ("lshr", ctx.shift_right(x, y), vec![w], Type::BV(w)),
-                        11 => ("add", ctx.add(x, y), vec![w], Type::BV(w)),
-                        12 => ("sub", ctx.sub(x, y), vec![w], Type::BV(w)),
-                        13 => ("mul", ctx.mul(x, y), vec![w], Type::BV(w)),
-                        14 => ("udiv", ctx.div(x, y), vec![w], Type::BV(w)),
-                        15 => ("sdiv", ctx.signed_div(x, y), vec![w], Type::BV(w)),
-                        16 => ("smod", ctx.signed_mod(x, y), vec![w], Type::BV(w)),
-                        17 => ("srem", ctx.signed_remainder(x, y), vec![w], Type::BV(w)),
-                        18 => ("urem", ctx.remainder(x, y), vec![w], Type::BV(w)),
-                        19 if w == 1 => ("implies", ctx.implies(x, y), vec![], Type::BV(1)),
+                        0 => ("eq", via!(ctx, rng, sh, equal(x, y)), vec![], Type::BV(1)),
+                        1 => ("ugt", via!(ctx, rng, sh, greater(x, y)), vec![], Type::BV(1)),
+                        2 => ("sgt", via!(ctx, rng, sh, greater_signed(x, y)), vec![w], Type::BV(1)),
+                        3 => ("ugte", via!(ctx, rng, sh, greater_or_equal(x, y)), vec![], Type::BV(1)),
+                        4 => ("sgte", via!(ctx, rng, sh, greater_or_equal_signed(x, y)), vec![w], Type::BV(1)),
+                        5 => ("and", via!(ctx, rng, sh, and(x, y)), vec![w], Type::BV(w)),
+                        6 => ("or", via!(ctx, rng, sh, or(x, y)), vec![w], Type::BV(w)),
+                        7 => ("xor", via!(ctx, rng, sh, xor(x, y)), vec![w], Type::BV(w)),
+                        8 => ("shl", via!(ctx, rng, sh, shift_left(x, y)), vec![w], Type::BV(w)),
+                        9 => ("ashr", via!(ctx, rng, sh, arithmetic_shift_right(x, y)), vec![w], Type::BV(w)),
+                        10 => ("lshr", via!(ctx, rng, sh, shift_right(x, y)), vec![w], Type::BV(w)),
+                        11 => ("add", via!(ctx, rng, sh, add(x, y)), vec![w], Type::BV(w)),
+                        12 => ("sub", via!(ctx, rng, sh, sub(x, y)), vec![w], Type::BV(w)),
+                        13 => ("mul", via!(ctx, rng, sh, mul(x, y)), vec![w], Type::BV(w)),
+                        14 => ("udiv", via!(ctx, rng, sh, div(x, y)), vec![w], Type::BV(w)),
+                        15 => ("sdiv", via!(ctx, rng, sh, signed_div(x, y)), vec![w], Type::BV(w)),
+                        16 => ("smod", via!(ctx, rng, sh, signed_mod(x, y)), vec![w], Type::BV(w)),
+                        17 => ("srem", via!(ctx, rng, sh, signed_remainder(x, y)), vec![w], Type::BV(w)),
+                        18 => ("urem", via!(ctx, rng, sh, remainder(x, y)), vec![w], Type::BV(w)),
+                        19 if w == 1 => ("implies", via!(ctx, rng, sh, implies(x, y)), vec![], Type::BV(1)),
                         _ => {
                             let Some((z, zw)) = pick_bv(rng, &sd, None) else { continue };
-                            ("concat", ctx.concat(x, z), vec![w + zw], Type::BV(w + zw))
+                            ("concat", via!(ctx, rng, sh, concat(x, z)), vec![w + zw], Type::BV(w + zw))
                         }
                     };
                     sh.hist("calls", name);
@@ -463,14 +475,14 @@ impl C12 {
                     if rng.flip() || sd.arr.is_empty() {
                         let Some((x, w)) = pick_bv(rng, &sd, None) else { continue };
                         let Some((y, _)) = pick_bv(rng, &sd, Some(w)) else { continue };
-                        let r = ctx.ite(c, x, y);
+                        let r = via!(ctx, rng, sh, ite(c, x, y));
                         sh.hist("calls", "ite");
                         self.observe(&mut sd, &ctx, Key::Op("ite", vec![c, x, y], vec![]), Type::BV(w), r, "ite")?;
                     } else {
                         let (a, iw, dw) = *rng.pick(&sd.arr);
                         let cands: Vec<_> = sd.arr.iter().filter(|x| x.1 == iw && x.2 == dw).copied().collect();
                         let (b, _, _) = *rng.pick(&cands);
-                        let r = ctx.ite(c, a, b);
+                        let r = via!(ctx, rng, sh, ite(c, a, b));
                         sh.hist("calls", "arrite");
                         self.observe(&mut sd, &ctx, Key::Op("arrite", vec![c, a, b], vec![]), Type::Array(ArrayType { index_width: iw, data_width: dw }), r, "array ite")?;
                     }
@@ -483,20 +495,20 @@ impl C12 {
                     let Some((i_, _)) = pick_bv(rng, &sd, Some(iw)) else { continue };
                     match rng.below(3) {
                         0 => {
-                            let r = ctx.array_read(a, i_);
+                            let r = via!(ctx, rng, sh, array_read(a, i_));
                             sh.hist("calls", "read");
                             self.observe(&mut sd, &ctx, Key::Op("read", vec![a, i_], vec![dw]), Type::BV(dw), r, "array_read")?;
                         }
                         1 => {
                             let Some((d, _)) = pick_bv(rng, &sd, Some(dw)) else { continue };
-                            let r = ctx.array_store(a, i_, d);
+                            let r = via!(ctx, rng, sh, array_store(a, i_, d));
                             sh.hist("calls", "store");
                             self.observe(&mut sd, &ctx, Key::Op("store", vec![a, i_, d], vec![]), Type::Array(ArrayType { index_width: iw, data_width: dw }), r, "array_store")?;
                         }
                         _ => {
                             let cands: Vec<_> = sd.arr.iter().filter(|x| x.1 == iw && x.2 == dw).copied().collect();
                             let (b, _, _) = *rng.pick(&cands);
-                            let r = ctx.equal(a, b);
+                            let r = via!(ctx, rng, sh, equal(a, b));
                             sh.hist("calls", "arreq");
                             self.observe(&mut sd, &ctx, Key::Op("arreq", vec![a, b], vec![]), Type::BV(1), r, "array equal")?;
                         }
@@ -620,7 +632,7 @@ impl Check for C12 {
         "builder_calls"
     }
     fn rule(&self) -> String {
-        "G6 builder-call histories: mode hist = 1000..20000 calls, mode long = 100000 calls with 70000 distinct strings; calls mix symbols (40 names x 16 widths, via bv_symbol and string+symbol), arrays, every operator builder, literals whose values are computed through 14 different baa routes (from_bit_str, from_u64/u128, add, sub, shl, lshr, ashr, concat, slice, sign/zero_extend, not, negate, mul) and entered via bv_lit/zero/one/ones/bit_vec_val, rebuilds of existing nodes from their recorded key, and a context clone that continues independently. Monitor: shadow structural map (same key => same ref, new key => fresh ref, normalisations return the operand), look-up of every earlier reference every 1000 calls and at the end. distinct_nontrivial = distinct (history, reference) pairs, i.e. structurally distinct nodes created and later re-checked (capped at 4M per shard).".into()
+        "G6 builder-call histories: mode hist = 1000..20000 calls, mode long = 100000 calls with 70000 distinct strings; calls mix symbols (40 names x 16 widths, via bv_symbol and string+symbol), arrays, every operator builder (one call in three goes through the `Builder` wrapper of `Context::build` instead of `Context` itself), literals whose values are computed through 14 different baa routes (from_bit_str, from_u64/u128, add, sub, shl, lshr, ashr, concat, slice, sign/zero_extend, not, negate, mul) and entered via bv_lit/zero/one/ones/bit_vec_val, rebuilds of existing nodes from their recorded key, and a context clone that continues independently. Monitor: shadow structural map (same key => same ref, new key => fresh ref, normalisations return the operand), look-up of every earlier reference every 1000 calls and at the end. distinct_nontrivial = distinct (history, reference) pairs, i.e. structurally distinct nodes created and later re-checked (capped at 4M per shard).".into()
     }
     fn assumptions(&self) -> Vec<String> {
         vec!["literal keys are numeric (width, value); the value handed to bv_lit comes from baa computations on canonical inputs".into()]
